@@ -602,6 +602,7 @@ func c07Build(d c07Item) (b *c07Built, problem string) {
 				doc := struct {
 					Message string `json:"message"`
 					Kind    string `json:"kind"`
+					Stack   []int  `json:"stack,omitempty"`
 					Causes  []cd   `json:"causes,omitempty"`
 				}{Message: "rs" + strconv.Itoa(i), Kind: "c07k" + strconv.Itoa(i)}
 				var sentinels []error
@@ -614,6 +615,11 @@ func c07Build(d c07Item) (b *c07Built, problem string) {
 					}
 				}
 				data, _ := json.Marshal(doc)
+				if i%2 == 1 {
+					// every other restored node comes from a document that spells an EMPTY stack: the restored
+					// error then holds an empty, non-nil frame slice
+					data = append(data[:len(data)-1], []byte(`,"stack":[]}`)...)
+				}
 				r, err := unmarshaler.NewJSON(resolver.New(defOf[i]), unmarshaler.WithSentinelErrors(sentinels...)).Unmarshal(data)
 				if err != nil {
 					problem = "rs node: Unmarshal failed: " + err.Error()
